@@ -131,6 +131,23 @@ def run(ctx):
             ctx.violation(f"configuration [{c}] crashed on the battery", {"cell": c, "witness": "crash:" + c})
             continue
         outs[c] = o
+    # "every configuration builds", per package: a crate built ALONE does not get the features another workspace member would
+    # switch on in its dependencies (feature unification), so each serde-on / serde-off cell is checked with `-p` on its own
+    alone = [["-p", "toml_edit", "--no-default-features", "--features", "serde"], ["-p", "toml_edit", "--features", "serde"],
+             ["-p", "toml_edit", "--features", "serde,perf"], ["-p", "toml_edit", "--no-default-features", "--features", "serde,parse"],
+             ["-p", "toml_edit", "--no-default-features", "--features", "serde,display"], ["-p", "toml_edit", "--features", "unbounded"],
+             ["-p", "toml_datetime"], ["-p", "toml_datetime", "--features", "serde"],
+             ["-p", "serde_spanned"], ["-p", "serde_spanned", "--features", "serde"],
+             ["-p", "toml_write", "--no-default-features"], ["-p", "toml_write", "--no-default-features", "--features", "alloc"],
+             ["-p", "toml", "--no-default-features", "--features", "preserve_order"], ["-p", "toml", "--features", "preserve_order"]]
+    for args in alone:
+        env = dict(ENV)
+        env["CARGO_TARGET_DIR"] = os.path.join(BUILD, "c18", "ws")
+        rc, o, e = sh(["cargo", "check", "--offline"] + args, cwd=REPO, env=env, timeout=3000)
+        ctx.oblige(f"cargo check {' '.join(args)} (the package alone)", rc == 0, e[-800:])
+        if rc != 0:
+            ctx.violation(f"`cargo check {' '.join(args)}` fails: the configuration does not build when the package is built alone", {"witness": "build:" + " ".join(args), "stderr": e[-1500:]})
+    ctx.cov["per_package_configurations_checked"] = len(alone)
     if ctx.tier == "thorough":
         # the remaining Cargo-level cells only have to build: toml_edit without serde, each crate alone
         for args in (["-p", "toml_edit", "--no-default-features", "--features", "parse,display"], ["-p", "toml_edit", "--no-default-features", "--features", "parse"],
